@@ -1,3 +1,541 @@
 package main
 
-func c03Dyn(c *common) int { return 0 }
+import (
+	"encoding/binary"
+	"fmt"
+	"reflect"
+	"strconv"
+	"strings"
+
+	mocker "github.com/tencent/goom"
+	"github.com/tencent/goom/internal/bytecode"
+	"github.com/tencent/goom/internal/bytecode/memory"
+	"github.com/tencent/goom/internal/patch"
+	"github.com/tencent/goom/internal/unexports2"
+	"github.com/tencent/goom/verifharness/hxlib"
+	refx86 "github.com/tencent/goom/verifharness/ref/x86asm"
+	"github.com/tencent/goom/verifharness/zoo/sacrifice"
+)
+
+// ---- synthetic prologue shapes, executed for real in the sacrificial text region.
+// Every shape is a func(int) int in ABIInternal: argument and result in RAX, no frame, only caller-saved registers.
+
+const (
+	c03OriginOff = 512
+	c03HelperOff = 2048 // add rax,100 ; ret
+	c03FarOff    = 2304 // add rax,5 ; ret
+	c03BeforeOff = 448  // add rax,7 ; ret   (in front of the origin)
+	c03DataOff   = 3072
+	c03PhOff     = 4096 + 128
+)
+
+type c03Asm struct {
+	base uintptr
+	org  uintptr
+	b    []byte
+}
+
+func (a *c03Asm) raw(bs ...byte) *c03Asm { a.b = append(a.b, bs...); return a }
+func (a *c03Asm) pos() int               { return len(a.b) }
+
+// rel32 appends a 4-byte displacement to target, measured from the end of the field plus `after` trailing bytes
+func (a *c03Asm) rel32(target uintptr, after int) *c03Asm {
+	end := a.org + uintptr(len(a.b)) + 4 + uintptr(after)
+	var d [4]byte
+	binary.LittleEndian.PutUint32(d[:], uint32(int32(int64(target)-int64(end))))
+	a.b = append(a.b, d[:]...)
+	return a
+}
+func (a *c03Asm) addRax(n byte) *c03Asm { return a.raw(0x48, 0x83, 0xC0, n) }
+func (a *c03Asm) cmpRax(n byte) *c03Asm { return a.raw(0x48, 0x83, 0xF8, n) }
+func (a *c03Asm) ret() *c03Asm          { return a.raw(0xC3) }
+
+type c03Shape struct {
+	name   string
+	data   uint64
+	build  func(a *c03Asm, helper, far, before, data uintptr)
+	expect string // "ok", "refuse" (build must fail and be inert), "known-reenter"
+}
+
+func c03Shapes() []c03Shape {
+	short := func(op byte) func(a *c03Asm, h, f, b, d uintptr) {
+		return func(a *c03Asm, h, f, b, d uintptr) {
+			a.cmpRax(5).raw(op, 0x0C).addRax(1).addRax(1).addRax(1).addRax(10).ret()
+		}
+	}
+	return []c03Shape{
+		{"jbe8-widened", 0, short(0x76), "ok"},
+		{"je8-widened", 0, short(0x74), "ok"},
+		{"jg8-widened", 0, short(0x7F), "ok"},
+		{"jmp8-widened", 0, short(0xEB), "ok"},
+		{"jne8-unsupported", 0, short(0x75), "refuse"},
+		{"cmp-rip-imm8-first/0", 0, func(a *c03Asm, h, f, b, d uintptr) {
+			a.raw(0x48, 0x83, 0x3D).rel32(d, 1).raw(0x00).raw(0x74, 0x08).addRax(1).addRax(1).addRax(10).ret()
+		}, "ok"},
+		{"cmp-rip-imm8-first/7", 7, func(a *c03Asm, h, f, b, d uintptr) {
+			a.raw(0x48, 0x83, 0x3D).rel32(d, 1).raw(0x00).raw(0x74, 0x08).addRax(1).addRax(1).addRax(10).ret()
+		}, "ok"},
+		{"cmp-rip-imm32", 7, func(a *c03Asm, h, f, b, d uintptr) {
+			a.raw(0x81, 0x3D).rel32(d, 4).raw(0x07, 0, 0, 0).raw(0x74, 0x04).addRax(1).addRax(2).addRax(10).ret()
+		}, "ok"},
+		{"mov-rip", 1000, func(a *c03Asm, h, f, b, d uintptr) {
+			a.raw(0x48, 0x8B, 0x0D).rel32(d, 0).raw(0x48, 0x01, 0xC8).addRax(1).addRax(1).ret()
+		}, "ok"},
+		{"lea-rip", 2000, func(a *c03Asm, h, f, b, d uintptr) {
+			a.raw(0x48, 0x8D, 0x0D).rel32(d, 0).raw(0x48, 0x8B, 0x09).raw(0x48, 0x01, 0xC8).addRax(1).ret()
+		}, "ok"},
+		{"call-first", 0, func(a *c03Asm, h, f, b, d uintptr) {
+			a.raw(0xE8).rel32(h, 0).addRax(1).addRax(1).addRax(1).ret()
+		}, "ok"},
+		{"jbe8-then-call", 0, func(a *c03Asm, h, f, b, d uintptr) { // the shape of `func f() { g() }`
+			a.cmpRax(5).raw(0x76, 0x0E).raw(0xE8).rel32(h, 0).addRax(1).addRax(2).ret().addRax(10).ret()
+		}, "ok"},
+		{"jump-back-into-prefix", 0, func(a *c03Asm, h, f, b, d uintptr) {
+			// 0: add 1 ; 4: cmp rax,100 ; 8: jg -> 20 (ret) ; 10: add 1 ; 14: add 1 ; 18: jmp -> 4 ; 20: ret
+			a.addRax(1).cmpRax(100).raw(0x7F, 0x0A).addRax(1).addRax(1).raw(0xEB, 0xF0).ret()
+		}, "refuse"},
+		{"branch-to-own-entry", 0, func(a *c03Asm, h, f, b, d uintptr) {
+			// f(x) = x if x > 3 else f(x+4), the recursion written as a jump to the entry (what a morestack block does)
+			a.cmpRax(3).raw(0x7F, 0x0F).addRax(4).addRax(0).raw(0x90).raw(0xEB, 0xEF).raw(0x90, 0x90, 0x90, 0x90).ret()
+		}, "known-reenter"},
+		{"ret-right-after-13", 0, func(a *c03Asm, h, f, b, d uintptr) {
+			a.addRax(1).addRax(1).addRax(1).raw(0x90).ret()
+		}, "ok"},
+		{"jmp32-first", 0, func(a *c03Asm, h, f, b, d uintptr) {
+			a.raw(0xE9).rel32(f, 0).addRax(1).addRax(1).addRax(1).ret()
+		}, "ok"},
+		{"jcc32", 0, func(a *c03Asm, h, f, b, d uintptr) {
+			a.cmpRax(5).raw(0x0F, 0x86).rel32(a.org+18, 0).addRax(1).addRax(1).addRax(10).ret()
+		}, "ok"},
+		{"inner-short-jump", 0, func(a *c03Asm, h, f, b, d uintptr) {
+			a.cmpRax(5).raw(0xEB, 0x02).raw(0x90, 0x90).addRax(1).addRax(2).ret()
+		}, "refuse-or-ok"},
+		{"inner-jump-across-widened", 0, func(a *c03Asm, h, f, b, d uintptr) {
+			// 0: jmp +6 (-> 8) ; 2: jbe -> 20 (widened) ; 4: nop x4 ; 8: add 1 ; 12: add 2 ; 16: add 3 ; 20: ret
+			a.raw(0xEB, 0x06).raw(0x76, 0x10).raw(0x90, 0x90, 0x90, 0x90).addRax(1).addRax(2).addRax(3).ret()
+		}, "refuse-or-ok"},
+		{"je8-to-code-before-function", 0, func(a *c03Asm, h, f, b, d uintptr) {
+			rel := int64(b) - int64(a.org+6)
+			a.cmpRax(5).raw(0x74, byte(int8(rel))).addRax(1).addRax(1).addRax(1).ret()
+		}, "ok"},
+		{"loop-to-own-entry-inside-prefix", 0, func(a *c03Asm, h, f, b, d uintptr) {
+			// do { x++ } while (x <= 10): 0: add 1 ; 4: cmp rax,10 ; 8: jbe -> 0 ; 10: add 0 ; 14: add 0 ; 18: ret
+			a.addRax(1).cmpRax(10).raw(0x76, 0xF6).addRax(0).addRax(0).ret()
+		}, "ok"},
+		{"recursive-call-inside-prefix", 0, func(a *c03Asm, h, f, b, d uintptr) {
+			// f(x) = x if x > 5 else f(x+3)+1 : 0: cmp rax,5 ; 4: jg -> 18 (widened) ; 6: add 3 ; 10: call entry ; 15: add.. ; 
+			a.cmpRax(5).raw(0x7F, 0x0D).addRax(3).raw(0xE8).rel32(a.org, 0).raw(0x48, 0xFF, 0xC0).ret().raw(0x90).ret()
+		}, "refuse-or-ok"},
+		{"call-at-byte-8", 0, func(a *c03Asm, h, f, b, d uintptr) {
+			a.addRax(1).addRax(1).raw(0xE8).rel32(h, 0).addRax(1).ret()
+		}, "ok"},
+	}
+}
+
+func c03Fill(addr uintptr, n int, b byte) {
+	memory.WriteTo(addr, make8(b, n))
+}
+
+func c03DynSynthetic(c *common, k int) int {
+	out := hxlib.NewOut(c.out)
+	defer out.Close()
+	shapes := c03Shapes()
+	if k < 0 || k >= len(shapes) {
+		out.Put(map[string]interface{}{"kind": "dyn", "error": "no such shape", "count": len(shapes)})
+		return 0
+	}
+	sh := shapes[k]
+	base := sacrifice.Addr()
+	region := sacrifice.Size
+	c03Fill(base, region, 0xCC)
+	org := base + c03OriginOff
+	helper, far, before, data, ph := base+c03HelperOff, base+c03FarOff, base+c03BeforeOff, base+c03DataOff, base+c03PhOff
+	memory.WriteTo(helper, []byte{0x48, 0x83, 0xC0, 100, 0xC3})
+	memory.WriteTo(far, []byte{0x48, 0x83, 0xC0, 5, 0xC3})
+	memory.WriteTo(before, []byte{0x48, 0x83, 0xC0, 7, 0xC3})
+	var dv [8]byte
+	binary.LittleEndian.PutUint64(dv[:], sh.data)
+	memory.WriteTo(data, dv[:])
+	a := &c03Asm{base: base, org: org}
+	sh.build(a, helper, far, before, data)
+	code := append(append([]byte{}, a.b...), 0xCC, 0x31, 0xC0, 0xC3) // one byte of padding, then foreign code
+	memory.WriteTo(org, code)
+	// placeholder: 80 bytes of body, a RET, one INT3, foreign code
+	phBody := []byte{}
+	for len(phBody) < 80 {
+		phBody = append(phBody, 0x31, 0xC0)
+	}
+	phBody = append(phBody, 0xC3, 0xCC, 0x31, 0xC0, 0xC3)
+	memory.WriteTo(ph, phBody)
+	bytecode.VerifClearFuncSizeCache()
+	typ := reflect.TypeOf(c14Replacement)
+	orgFn := unexports2.NewFuncWithCodePtr(typ, org).Interface().(func(int) int)
+	phFn := unexports2.NewFuncWithCodePtr(typ, ph).Interface().(func(int) int)
+	inputs := []int{0, 1, 2, 3, 4, 5, 6, 7, 100, -5}
+	expected := make([]int, len(inputs))
+	for i, x := range inputs {
+		expected[i] = orgFn(x)
+	}
+	before0 := append([]byte{}, rawView(base, region)...)
+	rec := map[string]interface{}{"kind": "dyn", "shape": sh.name, "k": k, "expect": sh.expect, "inputs": inputs, "expected": expected,
+		"code": fmt.Sprintf("%x", a.b)}
+	var err error
+	pan := ""
+	func() {
+		defer func() {
+			if e := recover(); e != nil {
+				pan = trunc(fmt.Sprint(e), 100)
+			}
+		}()
+		var g *patch.Guard
+		g, err = patch.PtrTrampoline(org, func(x int) int { return -777 }, &phFn)
+		if err == nil {
+			g.Apply()
+		}
+	}()
+	after := rawView(base, region)
+	var changed []int
+	for j := range before0 {
+		if before0[j] != after[j] {
+			changed = append(changed, j)
+		}
+	}
+	rec["refused"] = err != nil || pan != ""
+	rec["panic"] = pan
+	if err != nil {
+		rec["error"] = trunc(err.Error(), 100)
+	}
+	outside := 0
+	for _, j := range changed {
+		inJump := j >= c03OriginOff && j < c03OriginOff+13
+		inPh := j >= c03PhOff && j < c03PhOff+81
+		if !inJump && !inPh {
+			outside++
+		}
+	}
+	rec["changed"] = len(changed)
+	rec["changed_outside"] = outside
+	if err == nil && pan == "" {
+		rec["trampoline"] = fmt.Sprintf("%x", after[c03PhOff:c03PhOff+48])
+		out.Put(map[string]interface{}{"kind": "dyn-progress", "k": k, "stage": "built"}) // survives a crash below
+		out.Flush()
+		via := make([]int, len(inputs))
+		mocked := make([]int, len(inputs))
+		for i, x := range inputs {
+			via[i] = phFn(x)
+			mocked[i] = orgFn(x)
+		}
+		rec["via_origin"] = via
+		rec["mocked"] = mocked
+	}
+	out.Put(rec)
+	return 0
+}
+
+// ---- real Go functions: the prologue shapes the compiler emits, and the stack-growth path
+
+var c03Flag int
+var c03Sink int
+
+//go:noinline
+func c03G(a int) int { return a*3 + 1 }
+
+//go:noinline
+func c03CallsG(a int) int { return c03G(a) } // CMP/JBE, PUSH, MOV, CALL within the first bytes
+
+//go:noinline
+func c03FlagLeaf(a int) int { // frameless leaf whose first instruction compares a global with an immediate
+	if c03Flag == 0 {
+		return a + 1
+	}
+	return a + 2
+}
+
+//go:noinline
+func c03Framed(a int) int {
+	var buf [40]int
+	for i := range buf {
+		buf[i] = a + i
+	}
+	s := 0
+	for _, v := range buf {
+		s += v
+	}
+	return s + c03G(a)
+}
+
+//go:noinline
+func c03Twice(a int) int { return c03G(c03G(a)) }
+
+var c03Counter int32
+
+// frameless leaf starting with a do-while loop: the copied prologue contains a short branch back to the entry
+//
+//go:noinline
+func c03Drain(v int) int {
+	p := &c03Counter
+	for {
+		*p--
+		if *p <= 0 {
+			break
+		}
+	}
+	return v*3 + 1
+}
+
+//go:noinline
+func c03DrainP(p *int32, v int) int {
+	for {
+		*p--
+		if *p <= 0 {
+			break
+		}
+	}
+	return v*3 + 1
+}
+
+//go:noinline
+func c03DrainPTwin(p *int32, v int) int {
+	for {
+		*p--
+		if *p <= 0 {
+			break
+		}
+	}
+	return v*3 + 1
+}
+
+//go:noinline
+func c03DrainTwin(v int) int {
+	p := &c03Counter
+	for {
+		*p--
+		if *p <= 0 {
+			break
+		}
+	}
+	return v*3 + 1
+}
+
+// twins (never mocked)
+//
+//go:noinline
+func c03CallsGTwin(a int) int { return c03G(a) }
+
+//go:noinline
+func c03FlagLeafTwin(a int) int {
+	if c03Flag == 0 {
+		return a + 1
+	}
+	return a + 2
+}
+
+//go:noinline
+func c03FramedTwin(a int) int {
+	var buf [40]int
+	for i := range buf {
+		buf[i] = a + i
+	}
+	s := 0
+	for _, v := range buf {
+		s += v
+	}
+	return s + c03G(a)
+}
+
+//go:noinline
+func c03TwiceTwin(a int) int { return c03G(c03G(a)) }
+
+//go:noinline
+func c03Deep(n int, f func() int) int {
+	var pad [48]byte
+	pad[n%48] = byte(n)
+	if n == 0 {
+		return f()
+	}
+	return c03Deep(n-1, f) + int(pad[(n+1)%48])*0
+}
+
+func c03DynGo(c *common) int {
+	out := hxlib.NewOut(c.out)
+	defer out.Close()
+	type tgt struct {
+		name  string
+		addr  uintptr
+		apply func(b *mocker.Builder, cnt *int)
+		call  func(x int) int
+		want  func(x int) int
+	}
+	simple := func(name string, fn, twin func(int) int, origin *func(int) int) tgt {
+		return tgt{name, reflect.ValueOf(fn).Pointer(), func(b *mocker.Builder, cnt *int) {
+			b.Func(fn).Origin(origin).Apply(func(a int) int {
+				*cnt++
+				return (*origin)(a) + 1000
+			})
+		}, func(x int) int {
+			c03Counter = int32(x&3 + 1)
+			return fn(x)
+		}, func(x int) int {
+			c03Counter = int32(x&3 + 1)
+			return twin(x) + 1000
+		}}
+	}
+	// distinct closures need distinct code: one literal per target
+	o1 := func(i int) int {
+		fmt.Println("placeholder 1", i, c03Sink, strings.Repeat("x", i))
+		fmt.Println("placeholder 1", i+1, c03Sink)
+		return i + c03Sink
+	}
+	o2 := func(i int) int {
+		fmt.Println("placeholder 2", i, c03Sink, strings.Repeat("y", i))
+		fmt.Println("placeholder 2", i+2, c03Sink)
+		return i + c03Sink + 2
+	}
+	o3 := func(i int) int {
+		fmt.Println("placeholder 3", i, c03Sink, strings.Repeat("z", i))
+		fmt.Println("placeholder 3", i+3, c03Sink)
+		return i + c03Sink + 3
+	}
+	o4 := func(i int) int {
+		fmt.Println("placeholder 4", i, c03Sink, strings.Repeat("w", i))
+		fmt.Println("placeholder 4", i+4, c03Sink)
+		return i + c03Sink + 4
+	}
+	o5 := func(i int) int {
+		fmt.Println("placeholder 5", i, c03Sink, strings.Repeat("v", i))
+		fmt.Println("placeholder 5", i+5, c03Sink)
+		return i + c03Sink + 5
+	}
+	o6 := func(p *int32, i int) int {
+		fmt.Println("placeholder 6", i, c03Sink, strings.Repeat("u", i), p)
+		fmt.Println("placeholder 6", i+6, c03Sink)
+		return i + c03Sink + 6
+	}
+	tgts := []tgt{simple("c03CallsG", c03CallsG, c03CallsGTwin, &o1), simple("c03FlagLeaf", c03FlagLeaf, c03FlagLeafTwin, &o2),
+		simple("c03Framed", c03Framed, c03FramedTwin, &o3), simple("c03Twice", c03Twice, c03TwiceTwin, &o4),
+		simple("c03Drain", c03Drain, c03DrainTwin, &o5),
+		{"c03DrainP", reflect.ValueOf(c03DrainP).Pointer(), func(b *mocker.Builder, cnt *int) {
+			b.Func(c03DrainP).Origin(&o6).Apply(func(p *int32, v int) int {
+				*cnt++
+				return o6(p, v) + 1000
+			})
+		}, func(x int) int {
+			n := int32(x&3 + 1)
+			r := c03DrainP(&n, x)
+			if n != 0 {
+				return -1
+			}
+			return r
+		}, func(x int) int {
+			n := int32(x&3 + 1)
+			return c03DrainPTwin(&n, x) + 1000
+		}}}
+	b := mocker.Create()
+	for _, t := range tgts {
+		t := t
+		cnt := 0
+		// branches of the body (beyond the 13 entry bytes) that target the function's own first byte
+		fsz, _ := bytecode.GetFuncSize(64, t.addr, false)
+		eb := 0
+		if fsz > 0 && fsz < 4096 {
+			ins, _ := c03RefSweep(c03ReadCode(t.addr, fsz))
+			for _, x := range ins {
+				for _, a := range x.inst.Args {
+					if r, ok := a.(refx86.Rel); ok && x.pos+x.n+int(r) == 0 && x.pos >= 13 {
+						eb++
+					}
+				}
+			}
+		}
+		rec := map[string]interface{}{"kind": "dyngo", "target": t.name, "entry_branches_beyond_prefix": eb}
+		pan := ""
+		func() {
+			defer func() {
+				if e := recover(); e != nil {
+					pan = trunc(fmt.Sprint(e), 120)
+				}
+			}()
+			t.apply(b, &cnt)
+		}()
+		rec["apply_panic"] = pan
+		if pan == "" {
+			out.Put(map[string]interface{}{"kind": "dyn-progress", "target": t.name, "stage": "applied"})
+			out.Flush()
+			// warm stack
+			bad := 0
+			for x := -3; x < 20; x++ {
+				cnt = 0
+				got := t.call(x)
+				if want := t.want(x); got != want || cnt != 1 {
+					bad++
+					if bad == 1 {
+						rec["first_bad_warm"] = map[string]int{"x": x, "got": got, "want": want, "callbacks": cnt}
+					}
+				}
+			}
+			rec["bad_warm"] = bad
+			// every stack depth: the relocated stack check of the origin may fire
+			step := 7
+			if c.tier == "thorough" {
+				step = 1
+			}
+			reenter, wrong, depths := 0, 0, 0
+			for d := 0; d <= 3000; d += step {
+				depths++
+				done := make(chan [2]int)
+				go func(d int) {
+					cnt = 0
+					got := c03Deep(d, func() int { return t.call(5) })
+					done <- [2]int{got, cnt}
+				}(d)
+				r := <-done
+				if r[1] != 1 {
+					reenter++
+					if reenter == 1 {
+						rec["first_reenter_depth"] = d
+						rec["first_reenter_callbacks"] = r[1]
+					}
+				}
+				if r[0] != t.want(5) {
+					wrong++
+				}
+			}
+			rec["depths"] = depths
+			rec["reenter_depths"] = reenter
+			rec["wrong_result_depths"] = wrong
+		}
+		out.Put(rec)
+	}
+	func() {
+		defer func() { recover() }()
+		b.Reset()
+	}()
+	bad := 0
+	for _, t := range tgts {
+		for x := 0; x < 5; x++ {
+			if t.call(x) != t.want(x)-1000 {
+				bad++
+			}
+		}
+	}
+	out.Put(map[string]interface{}{"kind": "dyngo-reset", "bad": bad})
+	return 0
+}
+
+func c03Dyn(c *common) int {
+	if c.extra == "dyn:go" {
+		return c03DynGo(c)
+	}
+	if c.extra == "dyn:count" {
+		out := hxlib.NewOut(c.out)
+		defer out.Close()
+		var names []string
+		for _, s := range c03Shapes() {
+			names = append(names, s.name)
+		}
+		out.Put(map[string]interface{}{"kind": "dyn-count", "count": len(names), "names": names})
+		return 0
+	}
+	k, _ := strconv.Atoi(strings.TrimPrefix(c.extra, "dyn:"))
+	return c03DynSynthetic(c, k)
+}
